@@ -33,6 +33,9 @@ RULE = ("cases: CouplingMarkovChain(StepModel in 4 representations x variation f
         "SDE stream: CouplingSDE (StepModel driver, a = Constant / DiagX) at levels 1-3: level bookkeeping oracle; one real coupled driver path per level "
         "recorded (fine increments + coupling uniforms at coupling_state, times, jump / diffusion rows) and the object's StochasticSDEPath compared with "
         "the Coq composition coupling_state -> driver steps -> stacked Euler recursion (group sde, 1e-9); Libor model: sde drift at level 2 vs the level-1 process.  "
+        "SDE own-grid stream (F-C03-2): real coupled driver paths of CouplingSDE (finite-variation StepModel driver, DiagX and Constant on the same driver and seeds, "
+        "level 1; thorough: 1-2): end value of the object's COARSE row vs the REAL level-(l-1) MarkovChainSDE run on the coarse path restricted to its own time grid "
+        "(coarse jump times + maturity) with the same coarse jump / diffusion values, both also against the closed forms (1e-9).  "
         "non-trivial = distinct (chain, level, increment) with an odd increment; a simulated path with at least one jump")
 MODELLED = ["CouplingSimulation.probability_to_right_jump / coupling_state / coupling_states_for_a_slice (exact correspondence groups state1d, "
             "prob1d, slice1d), next_level bookkeeping = run_levels of C03_drift_diffusion_frozen (group levels: every level, both call modes "
@@ -57,7 +60,10 @@ MODELLED = ["CouplingSimulation.probability_to_right_jump / coupling_state / cou
             "closure set once at level 0) and simulate_one_path_with_coupling = coupled driver steps (coupling_state of the fine increments, one Brownian "
             "increment times the two coefficients) fed to C16's stacked Euler recursion ceuler_st; exact-structure correspondence group sde (1e-9) on "
             "real CouplingSDE objects at levels 1-3 with the real driver path recorded (increments and coupling uniforms at coupling_state). Copula "
-            "driver of the SDE coupling, sqrt(dt) and the normals (fed as data) are not modelled",
+            "driver of the SDE coupling, sqrt(dt) and the normals (fed as data) are not modelled. Wave 8: own_grid (the coarse path on the grid of its own jump "
+            "times + maturity = the level-(l-1) grid when no merged step exceeds the cap epsilon_(l-1)), end_value, dY; sde_run / sde_init / sde_next / sde_single / "
+            "sde_coupled are evaluated by vm_compute in C03_sde_grid_dependence_refuted and the Examples only, the correspondence group sde evaluates "
+            "step_sde_coupled (the same composition with the object's own coefficients and drifts as data); libor_zz occurs in the F-C03-4 witness only",
             "TIE (wave 6): CouplingSimulation.probability_to_right_jump / coupling_state and CTMCGrid.middle / left_point / right_point are now REGENERATED "
             "from the source on every run (Gen/GenTieCoupling.v, Gen/GenTieChain.v, py2coq loop plug-in) and proved equal to the hand model by "
             "C03_gen_probability_to_right_jump_is_model / C03_gen_coupling_state_is_model / C03_gen_middle_is_model",
@@ -75,6 +81,10 @@ ASSUMPTIONS = ["mass a b = fine_process.model.mass, additive and non-negative on
                "candidate repair does"]
 THEOREM_NOTES = {
     "number system": "proved over Q inside a Section with an abstract additive non-negative interval mass (simplification of DESIGN 2.1)",
+    "known finding F-C03-2": "matches_known_sde_grid re-computes from the replay's input fields (driver spec, a, c, x0, level, seed): rebuilds CouplingSDE and the real "
+                             "level-(l-1) MarkovChainSDE, draws the same path, and accepts only DiagX + exact own grid + at least one dropped time + recomputed end values "
+                             "equal to the reported ones AND to the closed forms on their grids + different + mc_drift_2h = level-(l-1) drift != 0 + the Constant control on "
+                             "the same seed agrees. Anything else (Constant differing, no dropped time, closed form missed) is an unlisted violation",
     "known finding": "F-C03-1 has TWO causes: (1) one odd axis: corner masses from the MARGIN over that axis instead of the joint mass half cell x cell; "
                      "(2) every corner mass is read from coupling_process.model (un-truncated, couplinglevycopula.py:177) while the rates come from "
                      "fine_process.model (margins truncated to the grid): this also hits 'both coordinates odd'. The oracle reports per input which cause is "
@@ -120,17 +130,29 @@ THEOREM_NOTES = {
                              "grid), frozen drift == drift_of(level-n grid).  Composition of C13 refine_n_grid_wf, C03_telescoping_1d and "
                              "C03_drift_diffusion_frozen (a repackaging: sig2_of and drift_of are arbitrary functions of the grid, so two of the "
                              "three equalities are bookkeeping of run_levels).  The n-d analogue is not stated (the code's n-d rates do not telescope: F-C03-1)",
-    "C03_sde": "1-d driver, any level l = n+1, any coefficient a whose stacked call restricts to a on each component (Constant, DiagX, sigma(t)*x), any "
-               "sde-drift constructor b_of, any driver path the driver accepts: the machine's driver state IS run_levels (so C03_same_generator_1d applies "
-               "to the coarse driver's jump rates), mc_drift_2h = driver drift of level n, coarse coefficient^2 = sig2_of(level-n grid), and the coarse rows "
-               "of simulate_one_path_with_coupling = euler a (b_of g) [drift of level n] on the coarse driver steps (C03_sde_driver_step: same t, dt, same "
-               "Brownian increment, copy / adjacent jump). Composition of C16 stacked_rows / coupled_rows with C03_drift_diffusion_frozen. Not covered: "
-               "copula driver; the driver's time grid (jump times + epsilon cap) is an input",
-    "C03_sde_same_scheme": "telescoping of the scheme: coarse component of level n+1, fine component of level n >= 1 and MarkovChainSDE.simulate_one_path at "
-                           "level 0 apply one function (a, b_of g, driver drift of level n) to their driver steps. NOT claimed: equality in law of the "
-                           "solutions - the coarse component is advanced on the level-l time grid (cap (h/2)^beta, all fine jump times) while the fine component "
-                           "of level l-1 was advanced on its own; for a non-constant a (DiagX) the Euler solution depends on the time grid (candidate F-C03-2, "
-                           "still only an observation: C16_constant_a shows independence for Constant)",
+    "C03_sde": "RELABELLED (audit5a B3, top-10 #6): BOOKKEEPING of sde_run (conjuncts 1-8, for arbitrary functions sig2_of / drift_of / b_of of the grid) plus a "
+               "COROLLARY OF C16 (stacked_rows + coupled_rows) for the rows clause. The rows clause holds at ANY record with s_mu_2h = Some _ and for any event list "
+               "the totalised driver accepts: no hypothesis dt > 0, increment on the axis (nthq is totalised where Python raises IndexError) or sig2 >= 0 - the "
+               "auditor's instance (sig2 = -7, dt = -3, increment 1000 on a 3-point axis) is accepted; cf, cc are free parameters, NOT tied to c_sig2_fine / "
+               "c_sig2_coarse (the group sde feeds the object's own coefficients). I did not add well-formedness hypotheses: none of them would be used by the proof "
+               "(decorative), so the statement is labelled for what it is instead. Content: the coarse rows are euler a b [mc_drift_2h] on the coarse driver steps "
+               "ON THE FINE DRIVER'S TIME GRID. It does not state equality of driver laws or of solutions (DESIGN's sentence is wrong). Not covered: copula driver",
+    "C03_sde_driver_step": "near-definitional: unfolding of driver_cstep + C03_copy_or_adjacent_1d",
+    "C03_sde_same_scheme": "REPACKAGING of C16 (conjunct 1 by reflexivity; in conjuncts 2-3 the steps cs are existentially quantified and not tied to es): coarse "
+                           "component of level n+1, fine component of level n >= 1 and MarkovChainSDE.simulate_one_path at level 0 apply one function (a, b_of g, driver "
+                           "drift of level n) to SOME driver steps. It is not a telescoping statement: the time grids differ (F-C03-2)",
+    "C03_sde_constant_grid_independent": "for ALL paths and any constant matrix A (b = 0): the end value on own_grid steps = the end value on steps (veq). Corollary of "
+                                         "C16_constant_a + 'own_grid keeps the sums of dt, dL, dW' (induction). So for Constant the grid of F-C03-2 is harmless",
+    "C03_sde_grid_dependence": "the name DESIGN.md promised; for ALL mu, x0, prefixes, suffixes, steps p s and components k, a = diag(x), b = 0: end value on "
+                               "pre ++ p :: s :: post minus end value on pre ++ merge p s :: post == x0_k * growth(pre) * dY_k(p) * dY_k(s) * growth(post) (from C16_diag's "
+                               "closed form). A statement about the Euler scheme (C16's model), quantitative: the size of the effect",
+    "C03_sde_grid_dependence_refuted": "F-C03-2 on the FAITHFUL model (sde_run level machine + coupling_state driver + stacked recursion, vm_compute witness): level 1, DiagX, "
+                                       "x0 = 2, fine increment +1 coupled to the origin at t = 1/4 then -2 at t = 1/2: coarse row ends at 333/512, the level-0 process "
+                                       "(sde_run 0: same driver drift -3/8, same sde drift, same a) on the coarse path's own grid {0, 1/2} at 7/8; Constant(3/2) control "
+                                       "equal. On the implementation: stream sde-grid (real path, real level-(l-1) MarkovChainSDE object). own_grid is the level-(l-1) "
+                                       "grid only while no merged step exceeds epsilon_(l-1) (finite-variation drivers: always); with an infinite-variation driver the "
+                                       "level-(l-1) cap inserts other times whose Brownian values the coupled path does not contain: not modelled, not driven. What is NOT "
+                                       "proved: the size of E[coarse_l] - E[fine_(l-1)] (audit5a measured +6.7 s.e. on VG/DiagX); the theorem and oracle are pathwise",
     "C03_sde_libor_drift_not_of_level_refuted": "F-C03-4 (assessment of the C16 observation): MarkovChainLevyLiborModel.sde_drift closes over zz(h) computed at "
                                                 "fine_process.initialisation, which CouplingSDE calls at level 0 only; from level 2 on the coarse component has the "
                                                 "driver drift and coefficient of level l-1 but the sde drift of level 0, not that of the level-(l-1) process built on "
@@ -141,7 +163,7 @@ THEOREM_NOTES = {
     "expected coarse payoff = expected fine payoff at level l-1": "derived on paper from C03_telescoping_1d + C03_drift_diffusion_frozen + "
                                                                   "C03_same_brownian_increments + Poisson thinning; not formalised",
 }
-LEVEL_TEXT = ("Proof: 31 Coq theorems + 6 examples (closed under the global context). One-dimensional coupling, for every admissible axis, every middle "
+LEVEL_TEXT = ("Proof: 34 Coq theorems + 7 examples (closed under the global context). One-dimensional coupling, for every admissible axis, every middle "
               "function with the stated properties and every additive non-negative mass: after refine the coarse grid is the even "
               "indices and the coarse cells are bounded by the odd states; coupling_state copies even increments and moves odd ones to "
               "an adjacent coarse state; sum over fine states of rate x P(fine -> y) equals the coarse chain's rate of y (states of "
@@ -158,12 +180,17 @@ LEVEL_TEXT = ("Proof: 31 Coq theorems + 6 examples (closed under the global cont
               "patched over __coupling_state (exact on tables; the oracle finds the identity on tables and on Clayton x HEM). The law of coupling_state2 "
               "as a function of the coupling uniform is linked to prob_to2 for both rules (C03_coupling_law_nd_*; one odd axis: by construction). Axes "
               "of different lengths are outside the model (CTMCGrid.right_point clamps with len(axes[0]), spatial.py:93). Tied to /repo by exact vm_compute correspondence on step-measure chains and density-table copulas; "
-              "jump-time / maximum-step coupled simulators (1-d and copula) driven end to end by an oracle. SDE coupling (1-d driver): at every level "
-              "the coarse rows of CouplingSDE.simulate_one_path_with_coupling are the Euler scheme with the level-(l-1) driver drift and coefficient on "
-              "the coupled coarse driver steps, the same scheme function as the previous level's fine component (C03_sde, C03_sde_same_scheme), tied on "
-              "real CouplingSDE objects at levels 1-3; the Libor sde drift keeps the level-0 zz (C03_sde_libor_drift_not_of_level_refuted, observation "
-              "F-C03-4). probability_to_right_jump / coupling_state / middle are regenerated from the source and linked to the hand model by theorem "
-              "(C03_gen_*_is_model). Partial: dimension >= 3, the SDE coupling on a copula driver, the time-grid dependence of the coarse SDE solution "
+              "jump-time / maximum-step coupled simulators (1-d and copula) driven end to end by an oracle. SDE coupling (1-d driver): C03 IS VIOLATED for a non-constant coefficient (finding "
+              "F-C03-2): couplingsde.py advances the coarse component on the time grid of the level-l fine driver, the level-(l-1) process advances on its own; with "
+              "a = DiagX the coarse row differs on one coupled driver path from the real level-(l-1) process run on the coarse path's own grid with the same coarse "
+              "driver increments (C03_sde_grid_dependence_refuted on the faithful model: 333/512 vs 7/8; oracle stream sde-grid on real objects; exact size of the "
+              "effect of merging two steps for all paths: C03_sde_grid_dependence), so the expected coarse payoff of level l is not the expected fine payoff of level "
+              "l-1 (measured by audit5a: +6.7 s.e., VG driver); for Constant the end value does not depend on the grid (C03_sde_constant_grid_independent, all paths). "
+              "C03_sde / C03_sde_same_scheme are bookkeeping of the level machine plus corollaries of C16 (the coarse rows are the Euler recursion with mc_drift_2h on the "
+              "coarse driver steps on the FINE grid; holds at any record, coefficients cf, cc free), tied on real CouplingSDE objects at levels 1-3; the Libor sde drift "
+              "keeps the level-0 zz (C03_sde_libor_drift_not_of_level_refuted, observation F-C03-4). probability_to_right_jump / coupling_state / middle are regenerated from the source and linked to the hand model by theorem "
+              "(C03_gen_*_is_model). Partial: dimension >= 3, the SDE coupling on a copula driver, the own grid of an "
+              "infinite-variation driver (cap insertions of level l-1), the size of the F-C03-2 bias in expectation "
               "and the probabilistic step 'equal generator data => equal law' are not proved.")
 LEVEL_NOTE = ("Trusted: Coq kernel + vm_compute; py2coq (truncation, triplet conversions); floats modelled as Q (exact on dyadic inputs); "
               "Section hypotheses on mass/mid; uniformity/independence of the coupling uniform (C08).")
@@ -316,6 +343,7 @@ def correspond(res):
     _n_d(res, rng, viol, groups)
     _jump_time_simulators(res, rng, viol)
     _sde(res, rng, viol, groups)
+    _sde_grid(res, rng, viol)
     header = ("From Coq Require Import ZArith QArith Qabs List Bool.\nFrom RV Require Import Base.QB Model.Grid Gen.GenC01Trunc Gen.GenC04Triplet "
               "Model.Chain Model.Drift Model.Coupling1d Model.CouplingNd Model.CouplingNdTwoMeasures Base.QVec Model.Euler Model.CouplingSde.\nImport ListNotations.\nOpen Scope Q_scope.\n" + SDE_HEADER +
               "Definition oq_eqb (a b : option Q) : bool := match a, b with Some x, Some y => Qeq_bool x y | None, None => true | _, _ => false end.\n"
@@ -915,6 +943,33 @@ def model_predictions_nd(c, table=None):
 _KNOWN_CACHE = {}
 
 
+def matches_known_sde_grid(v, r):
+    """F-C03-2 is accepted only if RE-COMPUTED from the replay's input fields (driver spec, a, x0, level, seed): the objects are rebuilt, the same
+    path is drawn again, and (a) a = DiagX, the own grid is exact and drops at least one time; (b) the recomputed coarse end value and the recomputed
+    end value of the real level-(l-1) process on the own grid are the reported ones; (c) each equals the closed form x0 * prod(1 + dY) on its grid
+    (the recorded cause: nothing but the grid differs) and they differ; (d) mc_drift_2h is the level-(l-1) process' driver drift; (e) CONTROL: with
+    Constant(c) on the same driver and seed the two end values agree.  The numbers written in the violation are only compared with."""
+    if r.get("finding") != "F-C03-2" or r.get("kind") != "sde-grid" or v.get("what") != SDE_GRID_WHAT or r.get("a") != "diag":
+        return False
+    key = "sde-grid:" + json.dumps(r, sort_keys=True, default=str)
+    if key in _KNOWN_CACHE:
+        return _KNOWN_CACHE[key]
+    ok = False
+    try:
+        near = lambda x, y: abs(x - y) <= SDE_GRID_TOL * (1 + abs(y))      # noqa
+        a = sde_own_grid_run(r["spec"], "diag", r["c"], r["x0"], int(r["level"]), int(r["seed"]))
+        c = sde_own_grid_run(r["spec"], "const", float(r["c"]) if r["c"] else 1.0, r["x0"], int(r["level"]), int(r["seed"]))
+        ok = (a["exact"] and a["merged"] > 0 and int(r["level"]) >= 1
+              and near(a["got"], float(r["got"])) and near(a["want"], float(r["want"]))
+              and near(a["got"], a["closed_code"]) and near(a["want"], a["closed_own"]) and not near(a["got"], a["want"])
+              and a["mu_2h"] == a["mu_prev"] and a["mu_2h"] != 0.0
+              and c["merged"] == a["merged"] and near(c["got"], c["want"]))
+    except Exception:  # noqa: a replay that cannot be rebuilt is not the recorded finding
+        ok = False
+    _KNOWN_CACHE[key] = ok
+    return ok
+
+
 def matches_known(v, known):
     """F-C03-1 is accepted only for a copula telescoping mismatch (kind nd-table / nd-real) that is RE-COMPUTED here from the replay's input
     fields alone: the objects are rebuilt, the implementation's coupled inflow of the reported coarse state is measured again (bisection on
@@ -924,6 +979,8 @@ def matches_known(v, known):
     and (c) the prediction violates the property, all at the stream's constant tolerance, and (d) at least one of the two recorded causes is
     active on this input (single-cause models).  The numbers written in the violation are only compared with, never trusted."""
     r = v.get("replay", {})
+    if known.get("id") == "F-C03-2":
+        return matches_known_sde_grid(v, r)
     if known.get("id") != "F-C03-1" or r.get("finding") != "F-C03-1" or r.get("kind") not in KNOWN_TOL:
         return False
     if "differs from the previous level's rate of y" not in v.get("what", ""):
@@ -1505,6 +1562,113 @@ def _sde(res, rng, viol, groups):
     _sde_libor_observation(res, rng, viol)
 
 
+# ------------------------------------------------------------------------------------------ F-C03-2: the time grid of the coarse SDE solution
+SDE_GRID_WHAT = ("SDE coupling: on one coupled driver path the coarse row of simulate_one_path_with_coupling differs from the level-(l-1) process "
+                 "(MarkovChainSDE.simulate_one_path) run on the coarse path's own time grid with the same coarse driver increments")
+SDE_GRID_TOL = 1e-9
+
+
+def sde_own_grid_run(spec, kind, cval, x0, level, seed):
+    """Everything from the INPUT fields alone.  Builds CouplingSDE (1-d StepModel driver of props.C16.driver_from(spec), a = Constant(cval) / DiagX),
+    goes to `level` by next_level, builds the level-(l-1) process MarkovChainSDE on a copy of the grid as it was before the last refinement, draws ONE
+    real coupled driver path (np.random.seed(seed)), lets the object compute its StochasticSDEPath on it (got = end value of the COARSE row), and
+    runs the REAL level-(l-1) process on the coarse driver path restricted to its OWN grid (times at which the coarse driver jumps + maturity; that is the
+    level-(l-1) grid exactly when no gap exceeds its cap epsilon_(l-1): field exact) with the same coarse jump / diffusion values (want).
+    closed_code / closed_own: x0 * prod(1 + mu dt + dL + dW) on the two grids (DiagX), x0 + c (mu T + L_T + W_T) (Constant)."""
+    import importlib
+    from rpylib.process.coupling.couplingsde import CouplingSDE
+    from rpylib.process.markovchain.markovchainsde import MarkovChainSDE
+    from rpylib.montecarlo.path import StochasticJumpPath, MLMCPath
+    C16 = importlib.import_module("props.C16")
+    with warnings.catch_warnings():
+        warnings.simplefilter("ignore")
+        driver, mkgrid = C16.driver_from(spec)
+        model = C16.make_model(driver, [x0], C16.make_a(kind, 1, 1, cval))
+        cp = CouplingSDE(model, mkgrid(), C16.sampling_method(1))
+        prod = C16.the_product()
+        cp.initialisation(prod)
+        pms = [MLMCPath(cp.fine_process.deterministic_path, False)]
+        dcp = cp.driver_coupling_process
+        prev_grid = None
+        for _ in range(level):
+            prev_grid = copy.deepcopy(dcp.grid)
+            cp.next_level(mc_paths=1, path_managers=pms, product=prod)
+        prev = MarkovChainSDE(model=model, method=C16.sampling_method(1), grid=prev_grid)
+        prev.initialisation(prod)
+        mu_prev = float(np.ravel(prev.markov_chain.process_drift())[0])
+        mu_2h = float(np.ravel(cp.mc_drift_2h)[0])
+        np.random.seed(seed)
+        dcp.__dict__.pop("simulate_one_path_with_coupling", None)
+        dcp.pre_computation(1, prod)
+        pth = dcp.simulate_one_path_with_coupling()
+        dcp.simulate_one_path_with_coupling = (lambda: pth)
+        try:
+            sp = cp.simulate_one_path_with_coupling()
+        finally:
+            dcp.__dict__.pop("simulate_one_path_with_coupling", None)
+        times = np.asarray(pth.jump_times, dtype=float)
+        jc, wc = np.asarray(pth.jump_path[1], dtype=float), np.asarray(pth.diffusion_path[1], dtype=float)
+        n = times.size
+        keep = [0] + [k for k in range(1, n - 1) if jc[k] != jc[k - 1]] + [n - 1]
+        eps_prev = float(prev.epsilon)
+        exact = bool(np.all(np.diff(times[keep]) <= eps_prev * (1 + 1e-12)))
+        own = StochasticJumpPath(times[keep].copy(), wc[keep].reshape(1, -1).copy(), jc[keep].reshape(1, -1).copy())
+        prev.markov_chain.simulate_one_path = (lambda: own)
+        sq = prev.simulate_one_path()
+        end = lambda q, row: float(x0 + np.ravel(np.asarray(q.drift)[row])[-1] + np.ravel(np.asarray(q.diffusion_path)[row])[-1]   # noqa
+                                   + np.ravel(np.asarray(q.jump_path)[row])[-1])
+        got, want = end(sp, 1), end(sq, 0)
+
+        def closed(idx):
+            t, j, w = times[idx], jc[idx], wc[idx]
+            dy = mu_2h * np.diff(t) + np.diff(j) + np.diff(w)
+            return float(x0 * np.prod(1.0 + dy)) if kind == "diag" else float(x0 + cval * np.sum(dy))
+        return dict(got=got, want=want, closed_code=closed(list(range(n))), closed_own=closed(keep), merged=n - len(keep), steps=n - 1, exact=exact,
+                    mu_2h=mu_2h, mu_prev=mu_prev, eps_prev=eps_prev, maturity=float(times[-1]))
+
+
+def _sde_grid(res, rng, viol):
+    """F-C03-2 (audit5a D1).  Real coupled driver paths of CouplingSDE at levels 1-2 (finite-variation StepModel driver: the cap is 1 = maturity, so the own
+    grid is exact), a = DiagX and Constant on the SAME driver and seeds.  Oracle on the implementation only: coarse row of the object vs the real
+    level-(l-1) process on the coarse path's own grid.  Constant must agree (C03_sde_constant_grid_independent); DiagX disagrees as soon as the path
+    has a time at which only the fine driver moves (C03_sde_grid_dependence): reported once per level with the tag F-C03-2."""
+    import importlib
+    C16 = importlib.import_module("props.C16")
+    near = lambda x, y: abs(x - y) <= SDE_GRID_TOL * (1 + abs(y))      # noqa
+    drv, _ = C16.step_driver(rng, 1, infinite_variation=False)
+    spec = dict(drv.c16_spec)
+    x0 = rng.randrange(4, 12) / 4
+    cval = rng.choice([-1.5, 0.5, 2.0])
+    for level in ((1, 2) if res.tier == "thorough" else (1,)):
+        reported, tries = False, (60 if res.tier == "thorough" else 30)
+        for _ in range(tries):
+            seed = rng.randrange(2 ** 31)
+            for kind in ("const", "diag"):
+                ctx = dict(kind="sde-grid", spec=spec, a=kind, c=cval, x0=x0, level=level, seed=seed)
+                try:
+                    r = sde_own_grid_run(spec, kind, cval, x0, level, seed)
+                except Exception as e:  # noqa
+                    viol(f"SDE coupling (own-grid oracle) raises {type(e).__name__}", reason=str(e)[:200], **ctx)
+                    continue
+                res.count(("sde-grid", kind, level, seed), nontrivial=r["merged"] > 0, kind=f"CouplingSDE coarse row vs level-(l-1) process on its own grid, a={kind}")
+                res.bump("sde_own_grid", f"a={kind} level {level}: {'no time at which only the fine driver moves' if not r['merged'] else 'fine-only times, coarse row ' + ('EQUAL' if near(r['got'], r['want']) else 'DIFFERS')}")
+                if r["mu_2h"] != r["mu_prev"]:
+                    viol("SDE coupling: mc_drift_2h is not the driver drift of the level-(l-1) process built on the previous grid", **ctx, **r)
+                if not (near(r["got"], r["closed_code"]) and near(r["want"], r["closed_own"])):
+                    viol("SDE coupling: an end value is not the closed form of the Euler scheme on its grid (harness or scheme changed)", **ctx, **r)
+                elif not near(r["got"], r["want"]):
+                    if kind == "diag" and r["exact"] and r["merged"] > 0:
+                        if not reported:
+                            viol(SDE_GRID_WHAT, finding="F-C03-2", **ctx, **r)
+                            reported = True
+                    else:
+                        viol(SDE_GRID_WHAT + " (NOT the recorded shape: constant coefficient, no fine-only time, or own grid not exact)", **ctx, **r)
+            if reported:
+                break
+        if not reported:
+            res.bump("sde_own_grid", f"level {level}: no DiagX path with a fine-only time in {tries} seeds")
+
+
 def _sde_libor_observation(res, rng, viol):
     """F-C03-4 (assessment; theorem C03_sde_libor_drift_not_of_level_refuted): the Libor sde drift of CouplingSDE keeps the zz of the level-0 h.
     The telescoping identity is not affected (both components of every level use it: C03_sde_same_scheme); what differs is the level-(l-1)
@@ -1591,6 +1755,11 @@ def replay(path):
                 rep = []
                 oracle_nd(lambda what, **kw: rep.append(what), c, coarse_chain, caxes, data["o"], {}, tol=tol)
                 print("implementation patched with the joint rule (one measure):", "telescopes" if not rep else rep[:1])
+        elif k == "sde-grid":
+            r = sde_own_grid_run(data["spec"], data["a"], data["c"], data["x0"], int(data["level"]), int(data["seed"]))
+            print("recomputed:", r)
+            if abs(r["got"] - r["want"]) > SDE_GRID_TOL * (1 + abs(r["want"])):
+                out.append((SDE_GRID_WHAT, {"got": r["got"], "want": r["want"]}))
         else:
             print("replay: re-run ./check C03")
             return 1
